@@ -1049,3 +1049,9 @@ PRESERVING += [
 BREAKING += [
     ('c6-rule-objects-drop-name-check', ['C04'], [(A, _ENV_ANCHOR, _rule_class(checks='checks[1:]')), (A, _SEARCH_OLD, _SEARCH_OBJ)]),
 ]
+
+# ---- round 7 (white-box audit): compression relation, pseudo-instruction templates, eval_immediate ----
+from .variants_comprel import BREAKING as _CR_BREAKING, PRESERVING as _CR_PRESERVING, UNDECIDED as _CR_UNDECIDED  # noqa: E402
+BREAKING += _CR_BREAKING
+PRESERVING += _CR_PRESERVING
+UNDECIDED += _CR_UNDECIDED
